@@ -56,16 +56,24 @@ def jobs_for(tier, rnd):
     # data-dependent bounds
     DT = [d + s for d in ('0', '1', '2', '3', '12', '21', '20', '02', '31', '13')
           for s in ('', 'a', 'aa', 'aaa', 'aaaa', 'ab', 'abab', 'ababab', 'aab', 'ba', 'aba')]
+    # the count is bound OUTSIDE and the repetition comes right after something that has just failed
+    for E in ELEMS:
+        for form in ('{n}', '{n,}', '{,n}', '{n,2}'):
+            for ctx in ('[("-" | ({e}){f}), /[0-9ab-]*/]', '[Longest("-", ({e}){f}), /[0-9ab-]*/]', '[(ExpectNot(/./) | ({e}){f}), /[0-9ab]*/]',
+                        '[Opt("-" >> "-"), ({e}){f}, /[0-9ab-]*/]'):
+                allj.append(('start = let n = N in ' + ctx.format(e=G.render(E), f=form) + '\n' + PRELUDE, DT + ['0-', '1-a', '0-a', '2-'], 'data-dependent'))
     for E in ELEMS:
         for body in name_forms(E):
-            for wrap in ('{b}', '[{b}, /[ab]*/]', '({b}) | /[0-9ab]+/', '[Opt({b}), /[0-9ab]*/]', '({b})*'):
+            for wrap in ('{b}', '[{b}, /[ab]*/]', '({b}) | /[0-9ab]+/', '[Opt({b}), /[0-9ab]*/]', '({b})*',
+                         # after an alternative / a lookahead that has just FAILED (the registers hold a failure)
+                         '[("-" | ({b})), /[0-9ab]*/]', '[Longest("-", ({b})), /[0-9ab]*/]', '[(ExpectNot(/./) | ({b})), /[0-9ab]*/]'):
                 allj.append(('start = ' + wrap.format(b='(' + body + ')') + '\n' + PRELUDE, DT, 'data-dependent'))
     if tier == 'quick':
         rnd.shuffle(allj)
         keep, seen = [], {}
         for j in allj:
             seen[j[2]] = seen.get(j[2], 0) + 1
-            if seen[j[2]] <= {'literal-bounds': 1500, 'sep': 1500, 'data-dependent': 400}[j[2]]:
+            if seen[j[2]] <= {'literal-bounds': 1500, 'sep': 1500, 'data-dependent': 520}[j[2]]:
                 keep.append(j)
         allj = keep
     for d, tx, stratum in allj:
